@@ -135,17 +135,21 @@ def run(tier):
         bins = rng.sample(range(0, 26), rng.randint(4, 7))
         blocks = [[tb[b] + rng.randrange(-64, 64), 16] for b in bins]
         plans.append({"kind": "queue", "blocks": blocks, "n_short": rng.choice([3, 5]), "n_long": rng.choice([4, 8]),
-                      "k": rng.choice([2, 3]), "iters": 300 if quick else 1500, "marks": 12, "base": 12,
+                      "k": rng.choice([2, 3]), "iters": 300 if quick else 1500, "marks": 12, "base": 1000,
                       "mode": rng.choice(["fifo", "random"]), "cycle": rng.random() < 0.5, "os": rng.choice("bad"),
                       "seed": rng.randrange(1, 1 << 40), "src": "queue-tree-bins"})
-    for i in range(8 if quick else 60):
-        # the last bins: [4, 6), [6, 8), [8, 12), >= 12 MiB (9, 13, 16, 24 MiB ...)
-        blocks = [[rng.choice([tb[28], tb[29], 9 << 20, 10 << 20, 13 << 20, 16 << 20, 20 << 20, 24 << 20]) + rng.randrange(-4096, 4096),
-                   rng.choice([16, 16, 4096])] for _ in range(rng.randint(3, 5))]
-        plans.append({"kind": "queue", "blocks": blocks, "n_short": rng.choice([2, 3]), "n_long": 2, "k": 3,
-                      "iters": 45 if quick else 200, "marks": 9, "base": 9, "mode": "fifo", "cycle": rng.random() < 0.5,
-                      "os": rng.choice("bad"), "seed": rng.randrange(1, 1 << 40), "watchdog": 120, "src": "queue-last-tree-bins"})
-    # (base = marks: with sizes that differ by orders of magnitude the window's demand is not the same
+    for i in range(10 if quick else 80):
+        # the last, open-ended bin (>= 12 MiB; chunks there are told apart by their low bits only)
+        # and the bins below it: a window of 4-6 blocks of 12..30 MiB (+ sometimes one of 4..12 MiB)
+        blocks = [[rng.randrange(12 << 20, 30 << 20, 1 << 16) + rng.randrange(0, 4096), rng.choice([16, 16, 4096])]
+                  for _ in range(rng.randint(4, 7))]
+        if i % 2 == 0:
+            blocks.append([rng.randrange(4 << 20, 12 << 20, 1 << 16), 16])
+        plans.append({"kind": "queue", "blocks": blocks, "n_short": rng.choice([2, 3]), "n_long": rng.choice([2, 3]),
+                      "k": rng.choice([2, 3]), "iters": 80 if quick else 250, "marks": 8, "base": 1000,
+                      "mode": rng.choice(["fifo", "random"]), "cycle": rng.random() < 0.5, "os": rng.choice("bad"),
+                      "seed": rng.randrange(1, 1 << 40), "watchdog": 180, "src": "queue-last-tree-bins"})
+    # (base beyond the marks: with sizes that differ by orders of magnitude the window's demand is not the same
     # at every mark; these runs are judged by NoGratuitousMap, Envelope, ReleaseOnce)
     # multi-threaded: T threads share one allocator behind tiny-std's own Mutex (lock, one call,
     # unlock - the composition GlobalDlMalloc uses); each thread repeats a TLC-generated workload
